@@ -6,6 +6,7 @@ import (
 	"go/constant"
 	"go/token"
 	"go/types"
+	"golang.org/x/tools/go/packages"
 	"os"
 	"sort"
 	"strconv"
@@ -912,7 +913,23 @@ func ruleC09Dispatch(p *Program, r *Run, sites []tokenSite, classes map[string][
 		"isHexDigit": func(c rune) bool { return '0' <= c && c <= '9' || 'a' <= c && c <= 'f' || 'A' <= c && c <= 'F' },
 	}
 	for _, name := range []string{"isAlpha", "isDigit", "isHexDigit"} {
-		fd := p.MustFunc(pkg, name)
+		fd := p.FuncDecl(pkg, name)
+		if fd == nil {
+			// the predicate may have become a variable holding a function (var isAlpha = unicode.IsLetter)
+			eval, pos := p.predicateVar(pkg, name)
+			if eval == nil {
+				r.Fail("C09/classes", "parser."+name+" character class", p.Pos(scan.Pos()), "the character predicate "+name+" is neither a function nor a variable initialised with a known function: its class cannot be evaluated")
+				continue
+			}
+			bad := ""
+			for c := rune(0); c < runeLimit && bad == ""; c++ {
+				if got := eval(c); got != preds[name](c) {
+					bad = fmt.Sprintf("%s(%q) is %v, documented class says %v", name, c, got, preds[name](c))
+				}
+			}
+			r.Check(bad == "", "C09/classes", "parser."+name+" character class", pos, "agrees with the documented class on U+0000..U+30FF", bad)
+			continue
+		}
 		bad := ""
 		for c := rune(0); c < runeLimit && bad == ""; c++ {
 			got, ok := evalRunePred(p, fd, c, 0)
@@ -1872,7 +1889,8 @@ func ruleC09Lookahead(p *Program, r *Run) {
 				}
 			}
 		}
-		if !loops && callers > 0 && allChecked {
+		_ = loops // a helper with a digit loop is interpreted in place like any other (its consumption counts on the caller's path)
+		if callers > 0 && allChecked {
 			inline[fobj] = true
 		}
 	}
@@ -2725,4 +2743,311 @@ func ruleC09Start(p *Program, r *Run) {
 	}
 	r.Check(bad == "", "C09/start", fn+" starts at the first byte", p.Pos(fd.Pos()), "the scanner is created at offset 0 and first moved inside the loop", bad+": bytes at the start of the source can be passed over without becoming a token, white space or a comment, although the same bytes elsewhere are an error token")
 	r.Floor("C09/start", 1)
+}
+
+// predicateVar: a package-level variable of function type named name that is never assigned and is initialised with
+// a function whose value on a character can be computed here (a unicode class predicate, or a module predicate).
+func (p *Program) predicateVar(pkg *packages.Package, name string) (func(rune) bool, string) {
+	v, _ := pkg.Types.Scope().Lookup(name).(*types.Var)
+	if v == nil || !p.globalNeverWritten(v) {
+		return nil, ""
+	}
+	init := p.globalInitExpr(v)
+	if init == nil {
+		return nil, ""
+	}
+	var fn *types.Func
+	switch x := ast.Unparen(init).(type) {
+	case *ast.Ident:
+		fn, _ = p.Info.Uses[x].(*types.Func)
+	case *ast.SelectorExpr:
+		fn, _ = p.Info.Uses[x.Sel].(*types.Func)
+	}
+	if fn == nil {
+		return nil, ""
+	}
+	pos := p.Pos(init.Pos())
+	switch fn.FullName() {
+	case "unicode.IsLetter":
+		return unicode.IsLetter, pos
+	case "unicode.IsDigit":
+		return unicode.IsDigit, pos
+	case "unicode.IsNumber":
+		return unicode.IsNumber, pos
+	case "unicode.IsSpace":
+		return unicode.IsSpace, pos
+	case "unicode.IsUpper":
+		return unicode.IsUpper, pos
+	case "unicode.IsLower":
+		return unicode.IsLower, pos
+	}
+	if d, dpkg := p.DeclOf(fn); d != nil && dpkg == pkg {
+		return func(c rune) bool {
+			got, ok := evalRunePred(p, d, c, 0)
+			return ok && got
+		}, pos
+	}
+	return nil, ""
+}
+
+// ---- C09/jump: a forward jump of the scanner in Scan passes over exactly what was searched for.
+//
+// Scan may skip a comment by searching for the line feed instead of reading rune by rune. Such a jump goes either to
+// just behind the separator that was found - X.setPos(X.pos + i + len(sep)) on a path where i, the result of
+// strings.Index*(text[X.pos:], sep), is known not to be negative - or to the end of the text on a path where that
+// result is known to be negative. Anything else (a jump to the end although a separator may have been found, a jump
+// computed from a result that may be -1) swallows text that is not part of the comment, or none of it.
+type jumpClient struct {
+	BaseClient
+	InlinePredicates
+	p    *Program
+	fn   string
+	seen int
+}
+
+func (c *jumpClient) PreCall(e *Engine, st *State, call *ast.CallExpr, callee *types.Func) *State {
+	if callee == nil || cursorOf(callee) != "scanner" || fnName(callee) != "setPos" || len(call.Args) != 1 || len(e.Frames()) != 0 || !e.Reporting() {
+		return nil
+	}
+	info := e.Info
+	fs, ok := ast.Unparen(call.Fun).(*ast.SelectorExpr)
+	if !ok {
+		return nil
+	}
+	recv := fs.X
+	arg := ast.Unparen(call.Args[0])
+	// a saved position (plus a constant): the undo of a look-ahead, decided by C09/backup and C09/lookahead
+	base := arg
+	if b, isBin := arg.(*ast.BinaryExpr); isBin && b.Op == token.ADD {
+		if _, isC := constInt(info, b.Y); isC {
+			base = ast.Unparen(b.X)
+		}
+	}
+	if id, isID := base.(*ast.Ident); isID {
+		if c.p.allDefsAre(id, func(d ast.Expr) bool {
+			sel, ok := d.(*ast.SelectorExpr)
+			return ok && selName(sel) == "pos"
+		}) {
+			return nil
+		}
+	}
+	c.seen++
+	key := fmt.Sprintf("%s jump #%d to %s", c.fn, c.seen, exprStr(arg))
+	searchOf := func(x ast.Expr) (*ast.CallExpr, string) {
+		cl, _ := ast.Unparen(c.p.DefExpr(x)).(*ast.CallExpr)
+		if cl == nil || len(cl.Args) != 2 {
+			return nil, ""
+		}
+		f := Callee(info, cl)
+		if f == nil || f.Pkg() == nil || f.Pkg().Path() != "strings" || !strings.HasPrefix(f.Name(), "Index") {
+			return nil, ""
+		}
+		sl, ok := ast.Unparen(cl.Args[0]).(*ast.SliceExpr)
+		if !ok || sl.High != nil || sl.Low == nil {
+			return nil, ""
+		}
+		lo, ok := ast.Unparen(sl.Low).(*ast.SelectorExpr)
+		if !ok || selName(lo) != "pos" || !sameExpr(info, lo.X, recv) || !c.p.scannerTextOf(sl.X, recv) {
+			return nil, ""
+		}
+		sep := ""
+		if s, isS := constString(info, cl.Args[1]); isS {
+			sep = s
+		} else if v, isC := constInt(info, cl.Args[1]); isC && v >= 0 && v < 128 {
+			sep = string(rune(v))
+		}
+		return cl, sep
+	}
+	// the end of the text: only where a search is known to have found nothing
+	if lc, isCall := arg.(*ast.CallExpr); isCall && IsBuiltinCall(info, lc, "len") && len(lc.Args) == 1 && c.p.scannerTextOf(lc.Args[0], recv) {
+		ok := false
+		for _, k := range st.Keys() {
+			if !strings.HasPrefix(k, "call:strings.Index") {
+				continue
+			}
+			if f := st.Get(k); f != nil && (f.Hi != nil && *f.Hi < 0 || f.HasEq && f.Eq == "-1") {
+				ok = true
+			}
+		}
+		// the result held in a variable that an enclosing condition tested
+		for a := e.P.Parent(call); a != nil && !ok; a = e.P.Parent(a) {
+			if ifs, isIf := a.(*ast.IfStmt); isIf {
+				ast.Inspect(ifs.Cond, func(n ast.Node) bool {
+					if id, isID := n.(*ast.Ident); isID {
+						if cl, _ := searchOf(id); cl != nil {
+							if f := e.FactOf(st, id); f != nil && (f.Hi != nil && *f.Hi < 0 || f.HasEq && f.Eq == "-1") {
+								ok = true
+							}
+						}
+					}
+					return true
+				})
+			}
+			if _, isFn := a.(*ast.FuncDecl); isFn {
+				break
+			}
+		}
+		e.Site("C09/jump", key, call, ok, "the end of the text, where the search for the separator is known to have found nothing")
+		if !ok {
+			e.Site("C09/jump", key, call, false, "the scanner jumps to the end of the text on a path where it is not known that the search found nothing (the separator may be right at the position): everything after the comment's line is swallowed without a token")
+		}
+		return nil
+	}
+	// pos + i + len(sep)
+	var terms []ast.Expr
+	var flat func(x ast.Expr)
+	flat = func(x ast.Expr) {
+		if b, ok := ast.Unparen(x).(*ast.BinaryExpr); ok && b.Op == token.ADD {
+			flat(b.X)
+			flat(b.Y)
+			return
+		}
+		terms = append(terms, ast.Unparen(x))
+	}
+	flat(arg)
+	posTerms, consts := 0, int64(0)
+	var search ast.Expr
+	sep := ""
+	okShape := true
+	for _, t := range terms {
+		if sel, ok := t.(*ast.SelectorExpr); ok && selName(sel) == "pos" && sameExpr(info, sel.X, recv) {
+			posTerms++
+			continue
+		}
+		if v, ok := constInt(info, t); ok {
+			consts += v
+			continue
+		}
+		if cl, sp := searchOf(t); cl != nil && search == nil {
+			search, sep = t, sp
+			continue
+		}
+		okShape = false
+	}
+	ok2 := okShape && posTerms == 1 && search != nil && sep != "" && consts == int64(len(sep))
+	why := "the target is not <position> + <result of a search from the position> + <length of the separator>"
+	if ok2 {
+		f := e.FactOf(st, search)
+		if f == nil || f.Lo == nil || *f.Lo < 0 {
+			ok2 = false
+			why = "the result of the search may be -1 here (nothing found): the scanner would not move, and the comment's text is scanned as tokens"
+		}
+	}
+	e.Site("C09/jump", key, call, ok2, "just behind the separator that was found (result known not to be negative)")
+	if !ok2 {
+		e.Site("C09/jump", key, call, false, "the scanner is moved to a position that is not known to be just behind the separator it searched for: "+why)
+	}
+	return nil
+}
+
+func ruleC09Jump(p *Program, r *Run) {
+	pkg := p.Parser
+	fd := p.MustFunc(pkg, "Scan")
+	fn := FuncName(pkg, fd)
+	r.Saw(fn)
+	c := &jumpClient{p: p, fn: fn}
+	e := NewEngine(p, pkg, fd, c)
+	e.Run(nil)
+	for _, m := range e.Errs {
+		r.Fail("C09/jump", fn+" engine", "-", m)
+	}
+	e.FlushSites(r)
+	if c.seen == 0 {
+		r.PassNT("C09/jump", fn+" moves only by reading", p.Pos(fd.Pos()), "Scan never moves the scanner forwards except by reading runes")
+	}
+}
+
+// ---- C09/folding: a character is only compared after a transformation that is exact for the compared constant.
+//
+// Where the lexer compares f(c) with a constant K (a value switch on f(c), or f(c) == K), f being a function of the
+// module from a character to a character, the characters that are taken for K are exactly K itself and - when K is
+// a letter - the same letter in the other case. A bit trick that "lowers" every character maps control characters
+// onto punctuation ('\x0e' | 0x20 == '.'), so a byte that is no part of any lexeme is accepted as one.
+func ruleC09Folding(p *Program, r *Run) {
+	pkg := p.Parser
+	info := pkg.TypesInfo
+	isCharFunc := func(f *types.Func) *ast.FuncDecl {
+		if f == nil || f.Pkg() != pkg.Types {
+			return nil
+		}
+		sig := f.Type().(*types.Signature)
+		if sig.Recv() != nil || sig.Params().Len() != 1 || sig.Results().Len() != 1 {
+			return nil
+		}
+		isChar := func(t types.Type) bool {
+			b, ok := t.Underlying().(*types.Basic)
+			return ok && (b.Kind() == types.Int32 || b.Kind() == types.Uint8)
+		}
+		if !isChar(sig.Params().At(0).Type()) || !isChar(sig.Results().At(0).Type()) {
+			return nil
+		}
+		d, _ := p.DeclOf(f)
+		return d
+	}
+	n := 0
+	check := func(fn string, call *ast.CallExpr, k ast.Expr) {
+		decl := isCharFunc(Callee(info, call))
+		if decl == nil {
+			return
+		}
+		kv, ok := constInt(info, k)
+		if !ok {
+			return
+		}
+		n++
+		r.Saw(fn)
+		bad := ""
+		for c := int64(0); c < int64(runeLimit) && bad == ""; c++ {
+			got, ok := evalIntFunc(p, decl, []int64{c})
+			if !ok {
+				bad = "the function cannot be evaluated symbolically"
+				break
+			}
+			if got != kv {
+				continue
+			}
+			exact := c == kv
+			if !exact && unicode.IsLetter(rune(kv)) && unicode.IsLetter(rune(c)) && unicode.ToLower(rune(c)) == unicode.ToLower(rune(kv)) {
+				exact = true
+			}
+			if !exact {
+				bad = fmt.Sprintf("%s(%q) == %q", decl.Name.Name, rune(c), rune(kv))
+			}
+		}
+		key := fmt.Sprintf("%s compares %s with %q", fn, exprStr(call), rune(kv))
+		r.Check(bad == "", "C09/folding", key, p.Pos(call.Pos()), "only the constant itself (and the same letter in the other case) is taken for it (U+0000..U+30FF)", "a character other than the compared one is taken for it: "+bad+" - a byte that belongs to no lexeme is accepted as part of one")
+	}
+	for _, fd := range AllFuncs(pkg) {
+		if !p.isLexerFunc(fd) {
+			continue
+		}
+		fn := FuncName(pkg, fd)
+		ast.Inspect(fd.Body, func(x ast.Node) bool {
+			switch v := x.(type) {
+			case *ast.SwitchStmt:
+				call, ok := ast.Unparen(v.Tag).(*ast.CallExpr)
+				if v.Tag == nil || !ok {
+					return true
+				}
+				for _, cs := range v.Body.List {
+					for _, k := range cs.(*ast.CaseClause).List {
+						check(fn, call, k)
+					}
+				}
+			case *ast.BinaryExpr:
+				if v.Op != token.EQL && v.Op != token.NEQ {
+					return true
+				}
+				if call, ok := ast.Unparen(v.X).(*ast.CallExpr); ok {
+					check(fn, call, v.Y)
+				} else if call, ok := ast.Unparen(v.Y).(*ast.CallExpr); ok {
+					check(fn, call, v.X)
+				}
+			}
+			return true
+		})
+	}
+	if n == 0 {
+		r.PassNT("C09/folding", "parser lexer compares characters directly", "-", "no character is compared through a transformation function")
+	}
 }
